@@ -385,6 +385,11 @@ func runUniverseCase(rng *rand.Rand, thorough bool, out *bufio.Writer, st *stats
 		var e event
 		if rng.Intn(12) == 0 {
 			e = event{kind: 'R', failAt: -1, crashAt: -1}
+		} else if rng.Intn(12) == 0 {
+			e = event{kind: 'K', failAt: -1, crashAt: -1} // a local snapshot
+			if rng.Intn(6) == 0 {
+				e.crashAt = rng.Intn(3)
+			}
 		} else {
 			k := len(u.pool) - 1 - rng.Intn(min(len(u.pool), 4))
 			if rng.Intn(5) == 0 {
